@@ -119,19 +119,109 @@ def like_dtype(x):
 SUM_REGISTRY = []  # (prefix_fn, arr, length_term) per path; reset by Harness
 
 
-def sym_sum(ctx, arr):
-    """Sum of a symbolic-length series: S(len) for a fresh prefix-sum function S with
-    S(0) = 0 and S(j+1) = S(j) + arr(j) (0 <= j < len), instantiated at the indices the proof uses."""
+_JVAR = z3.Int("sum!j")
+
+
+def _contains(e, v):
+    vid = v.get_id()
+    seen = set()
+    stack = [e]
+    while stack:
+        x = stack.pop()
+        i = x.get_id()
+        if i in seen:
+            continue
+        seen.add(i)
+        if i == vid:
+            return True
+        stack.extend(x.children())
+    return False
+
+
+def _prefix_sum_fn(ctx, summand):
+    """Prefix-sum function of the summand (a z3 real term over _JVAR), shared between syntactically equal
+    summands: PS(0) = 0, PS(t+1) = PS(t) + summand(t) for t >= 0 (instantiated at the indices in use)."""
+    memo = ctx.__dict__.setdefault("_ps_memo", {})
+    key = summand.sexpr()
+    if key in memo:
+        return memo[key]
     ctx.counter += 1
-    S = z3.Function(f"psum!{ctx.counter}", z3.IntSort(), z3.RealSort())
-    lt = ops.as_int_term(arr.length)
+    name = f"psum!{ctx.counter}"
+    if z3.is_app(summand) and summand.num_args() == 1 and summand.arg(0).eq(_JVAR) and \
+            summand.decl().kind() == z3.Z3_OP_UNINTERPRETED:
+        name = f"psum[{summand.decl().name()}]!{ctx.counter}"
+    S = z3.Function(name, z3.IntSort(), z3.RealSort())
     ctx.facts.append(S(0) == 0)
-    ctx.sums.append((S, arr, lt))
-    # unfolding at the two ends is always available
-    one = z3.IntVal(1)
-    ctx.facts.append(z3.Implies(lt >= 1, S(lt) == S(lt - 1) + ops.as_real(arr.get(z3.simplify(lt - 1)))))
-    ctx.facts.append(z3.Implies(lt >= 1, S(one) == ops.as_real(arr.get(0))))
-    return Sym(S(lt), "float")
+    ctx.sums.append((S, lambda t, summand=summand: z3.substitute(summand, (_JVAR, t))))
+    memo[key] = S
+    return S
+
+
+def _sum_linear(ctx, e, n):
+    """Sum_{j<n} e(j) decomposed by linearity into prefix sums of atomic summands."""
+    if not _contains(e, _JVAR):
+        return z3.ToReal(n) * e
+    k = e.decl().kind() if z3.is_app(e) else None
+    ch = e.children()
+    if k == z3.Z3_OP_ADD:
+        return z3.Sum([_sum_linear(ctx, c, n) for c in ch])
+    if k == z3.Z3_OP_SUB:
+        out = _sum_linear(ctx, ch[0], n)
+        for c in ch[1:]:
+            out = out - _sum_linear(ctx, c, n)
+        return out
+    if k == z3.Z3_OP_UMINUS:
+        return -_sum_linear(ctx, ch[0], n)
+    if k == z3.Z3_OP_MUL:
+        dep = [c for c in ch if _contains(c, _JVAR)]
+        if len(dep) == 1:
+            coef = z3.Product([c for c in ch if not _contains(c, _JVAR)])
+            return coef * _sum_linear(ctx, dep[0], n)
+    if k == z3.Z3_OP_DIV and not _contains(ch[1], _JVAR):
+        return _sum_linear(ctx, ch[0], n) / ch[1]
+    if k == z3.Z3_OP_TO_REAL and z3.is_app(ch[0]) and ch[0].decl().kind() in (z3.Z3_OP_ADD, z3.Z3_OP_SUB, z3.Z3_OP_UMINUS):
+        return _sum_linear(ctx, z3.simplify(e, som=True), n) if False else _prefix_sum_fn(ctx, e)(n)
+    S = _prefix_sum_fn(ctx, e)
+    _sign_lemma(ctx, S, e, n)
+    return S(n)
+
+
+def _sign_lemma(ctx, S, summand, n):
+    """Induction lemma, applied when its premise is entailed at an arbitrary index of the range:
+    (forall 0 <= j < n. summand(j) >= 0)  ->  0 <= PS(t) <= PS(t') for 0 <= t <= t' <= n  (dually <= 0).
+    The induction schema itself is the trusted part (DESIGN 2.4)."""
+    done = ctx.__dict__.setdefault("_sign_done", set())
+    key = (S.name(), n.get_id())
+    if key in done:
+        return
+    done.add(key)
+    ctx.counter += 1
+    j = z3.Int(f"sl!{ctx.counter}")
+    ctx.add_index(j)
+    rng = z3.And(j >= 0, j < n)
+    sj = z3.substitute(summand, (_JVAR, j))
+    for sign, name in ((1, "nonneg"), (-1, "nonpos")):
+        prem = z3.Implies(rng, sj >= 0 if sign == 1 else sj <= 0)
+        if ctx.entails(prem):
+            ctx.notes.append(f"sum sign lemma ({name}) applied to {S.name()}")
+            if sign == 1:
+                ctx.facts.append(z3.Implies(n >= 0, S(n) >= 0))
+                ctx.quantified.append((n, lambda t, S=S: z3.And(S(t) >= 0, S(t) <= S(t + 1), S(t + 1) <= S(n))))
+            else:
+                ctx.facts.append(z3.Implies(n >= 0, S(n) <= 0))
+                ctx.quantified.append((n, lambda t, S=S: z3.And(S(t) <= 0, S(t) >= S(t + 1), S(t + 1) >= S(n))))
+            break
+
+
+def sym_sum(ctx, arr):
+    """Sum of a symbolic-length series, normalised by linearity: sums of point-wise linear combinations
+    of series are the same linear combinations of the series' prefix sums (so linearity of summation
+    needs no induction); each atomic summand gets one shared prefix-sum function."""
+    lt = ops.as_int_term(arr.length)
+    ctx.add_index(lt - 1)
+    e = ops.as_real(arr.get(_JVAR))
+    e = z3.simplify(e, som=False)
+    return ops.simp(Sym(_sum_linear(ctx, e, lt), "float"))
 
 
 def sym_all(ctx, arr):
